@@ -346,36 +346,21 @@ fn de_any() {
 }
 
 // ---------------------------------------------------------------------------------------------
-// Part 2 -- RangeDeserializer::{new,next,size_hint} + RowDeserializer (bounded)
+// Part 2a -- RowDeserializer (SeqAccess / MapAccess), everything symbolic, containers of fixed shape
 // ---------------------------------------------------------------------------------------------
 
-/// symbolic origin; the only constraint is that the range fits into u32 coordinates
-fn any_origin() -> (u32, u32) {
-    let r: u32 = kani::any();
-    let c: u32 = kani::any();
-    kani::assume(r <= u32::MAX - 4 && c <= u32::MAX - 4);
-    (r, c)
+/// replaces `<T as ToString>::to_string` (used for error messages by `DeError::custom`, and by
+/// `deserialize_str` to render numbers -- no harness that uses this stub asserts anything about rendered numbers)
+fn to_string_stub<T: fmt::Display + ?Sized>(_v: &T) -> String {
+    String::new()
 }
 
-/// H x W range at `start` built through the public API; cell (i, j) is `cell(i, j)`
-fn build_range<const H: usize, const W: usize>(start: (u32, u32), cells: &[[Data; W]; H]) -> Range<Data> {
-    let mut r: Range<Data> = Range::new(start, (start.0 + H as u32 - 1, start.1 + W as u32 - 1));
-    let mut i = 0;
-    while i < H {
-        let mut j = 0;
-        while j < W {
-            r.set_value((start.0 + i as u32, start.1 + j as u32), cells[i][j].clone());
-            j += 1;
-        }
-        i += 1;
+/// element type for records: whatever the cell says about itself through `deserialize_any`
+/// (Int(v) -> I64(v), Empty -> Unit, Error -> the record fails)
+impl<'de> Deserialize<'de> for Got {
+    fn deserialize<D: Deserializer<'de>>(d: D) -> Result<Self, D::Error> {
+        d.deserialize_any(Leaf)
     }
-    r
-}
-
-fn no_headers() -> RangeDeserializerBuilder<'static, &'static str> {
-    let mut b = RangeDeserializerBuilder::new();
-    b.has_headers(false);
-    b
 }
 
 /// a record that pulls up to 3 elements of type E from the row and remembers how many there were
@@ -383,88 +368,858 @@ struct Row3<E> {
     n: u8,
     e: [Option<E>; 3],
 }
+struct Row3V<E>(PhantomData<E>);
+impl<'de, E: Deserialize<'de>> Visitor<'de> for Row3V<E> {
+    type Value = Row3<E>;
+    fn expecting(&self, _f: &mut fmt::Formatter<'_>) -> fmt::Result {
+        Ok(())
+    }
+    fn visit_seq<A: SeqAccess<'de>>(self, mut a: A) -> Result<Row3<E>, A::Error> {
+        let mut r = Row3 { n: 0, e: [None, None, None] };
+        while r.n < 3 {
+            match a.next_element::<E>()? {
+                Some(x) => r.e[r.n as usize] = Some(x),
+                None => break,
+            }
+            r.n += 1;
+        }
+        Ok(r)
+    }
+}
 impl<'de, E: Deserialize<'de>> Deserialize<'de> for Row3<E> {
     fn deserialize<D: Deserializer<'de>>(d: D) -> Result<Self, D::Error> {
-        struct V<E>(PhantomData<E>);
-        impl<'de, E: Deserialize<'de>> Visitor<'de> for V<E> {
-            type Value = Row3<E>;
+        d.deserialize_seq(Row3V(PhantomData))
+    }
+}
+
+/// cell model used by the bounded harnesses: tag 0 Int(v), 1 Empty, 2 Error(k)
+fn mk_cell(tag: u8, v: i64, k: &CellErrorType) -> Data {
+    match tag {
+        0 => Data::Int(v),
+        1 => Data::Empty,
+        _ => Data::Error(k.clone()),
+    }
+}
+/// what a consumer must see for a non-error cell
+fn seen(tag: u8, v: i64) -> Got {
+    if tag == 0 {
+        Got::I64(v)
+    } else {
+        Got::Unit
+    }
+}
+
+/// SeqAccess: the record is the selected columns, in the order of `column_indexes`
+#[kani::proof]
+#[kani::unwind(5)]
+#[kani::stub(alloc::fmt::format, format_stub)]
+fn row_seq_selects_columns() {
+    let tag: [u8; 3] = kani::any();
+    let v: [i64; 3] = kani::any();
+    kani::assume(tag[0] < 2 && tag[1] < 2 && tag[2] < 2);
+    let k = CellErrorType::NA;
+    let cells = [mk_cell(tag[0], v[0], &k), mk_cell(tag[1], v[1], &k), mk_cell(tag[2], v[2], &k)];
+    let idx: [usize; 2] = kani::any();
+    kani::assume(idx[0] < 3 && idx[1] < 3);
+    let pos: (u32, u32) = kani::any();
+    kani::cover!(idx[0] == 2 && idx[1] == 0 && tag[2] == 1);
+    let de = RowDeserializer::new(&idx, None, &cells, pos);
+    match Row3::<Got>::deserialize(de) {
+        Ok(r) => {
+            assert!(r.n == 2);
+            assert!(r.e[0] == Some(seen(tag[idx[0]], v[idx[0]])));
+            assert!(r.e[1] == Some(seen(tag[idx[1]], v[idx[1]])));
+        }
+        Err(_) => assert!(false),
+    }
+}
+
+/// SeqAccess::size_hint is the exact number of elements still to come
+#[kani::proof]
+#[kani::unwind(5)]
+#[kani::stub(alloc::fmt::format, format_stub)]
+fn row_seq_size_hint() {
+    let v: [i64; 2] = kani::any();
+    let cells = [Data::Int(v[0]), Data::Int(v[1])];
+    let idx = [1usize, 0];
+    let mut de = RowDeserializer::new(&idx, None, &cells, kani::any());
+    assert!(SeqAccess::size_hint(&de) == Some(2));
+    assert!(matches!(de.next_element::<Got>(), Ok(Some(_))));
+    assert!(SeqAccess::size_hint(&de) == Some(1));
+    assert!(matches!(de.next_element::<Got>(), Ok(Some(_))));
+    assert!(SeqAccess::size_hint(&de) == Some(0));
+    assert!(matches!(de.next_element::<Got>(), Ok(None)));
+    assert!(SeqAccess::size_hint(&de) == Some(0));
+}
+
+fn row_with_error() -> ([Data; 3], usize, u8, (u32, u32), Result<Row3<Got>, DeError>) {
+    let j: usize = kani::any();
+    kani::assume(j < 3);
+    let v: [i64; 3] = kani::any();
+    let k = any_kind();
+    let cells = [
+        mk_cell(if j == 0 { 2 } else { 0 }, v[0], &k),
+        mk_cell(if j == 1 { 2 } else { 0 }, v[1], &k),
+        mk_cell(if j == 2 { 2 } else { 0 }, v[2], &k),
+    ];
+    // the row starts at absolute position `base`
+    let base: (u32, u32) = kani::any();
+    kani::assume(base.1 <= u32::MAX - 3);
+    let idx = [0usize, 1, 2];
+    let r = Row3::<Got>::deserialize(RowDeserializer::new(&idx, None, &cells, base));
+    (cells, j, kind_no(&k), base, r)
+}
+/// an error cell in a row fails the record with CellError of that kind
+#[kani::proof]
+#[kani::unwind(5)]
+#[kani::stub(alloc::fmt::format, format_stub)]
+fn row_error_kind() {
+    let (_c, _j, k, _base, r) = row_with_error();
+    match r {
+        Err(DeError::CellError { err, .. }) => assert!(kind_no(&err) == k),
+        _ => assert!(false),
+    }
+}
+/// ... reported in the row it was given
+#[kani::proof]
+#[kani::unwind(5)]
+#[kani::stub(alloc::fmt::format, format_stub)]
+fn row_error_row() {
+    let (_c, _j, _k, base, r) = row_with_error();
+    match r {
+        Err(DeError::CellError { pos, .. }) => assert!(pos.0 == base.0),
+        _ => assert!(false),
+    }
+}
+/// ... and in the column of the failing cell (row start column + column index)
+#[kani::proof]
+#[kani::unwind(5)]
+#[kani::stub(alloc::fmt::format, format_stub)]
+fn row_error_col() {
+    let (_c, j, _k, base, r) = row_with_error();
+    kani::cover!(j == 2);
+    match r {
+        Err(DeError::CellError { pos, .. }) => assert!(pos.1 == base.1 + j as u32),
+        _ => assert!(false),
+    }
+}
+
+// ----- MapAccess ------------------------------------------------------------------------------
+
+/// a map key as seen by a consumer: first byte and length of the header string
+#[derive(Clone, Copy, PartialEq)]
+struct Key(u8, usize);
+impl<'de> Deserialize<'de> for Key {
+    fn deserialize<D: Deserializer<'de>>(d: D) -> Result<Self, D::Error> {
+        struct KV;
+        impl<'de> Visitor<'de> for KV {
+            type Value = Key;
             fn expecting(&self, _f: &mut fmt::Formatter<'_>) -> fmt::Result {
                 Ok(())
             }
-            fn visit_seq<A: SeqAccess<'de>>(self, mut a: A) -> Result<Row3<E>, A::Error> {
-                let mut r = Row3 { n: 0, e: [None, None, None] };
-                while r.n < 3 {
-                    match a.next_element::<E>()? {
-                        Some(x) => r.e[r.n as usize] = Some(x),
-                        None => break,
-                    }
-                    r.n += 1;
-                }
-                Ok(r)
+            fn visit_str<E>(self, v: &str) -> Result<Key, E> {
+                Ok(Key(if v.is_empty() { 0 } else { v.as_bytes()[0] }, v.len()))
             }
         }
-        d.deserialize_seq(V(PhantomData))
+        d.deserialize_identifier(KV)
     }
 }
-/// element type for records: whatever the cell says about itself through `deserialize_any`
-impl<'de> Deserialize<'de> for Got {
-    fn deserialize<D: Deserializer<'de>>(d: D) -> Result<Self, D::Error> {
-        d.deserialize_any(Leaf)
+/// records up to 3 (key, value) entries of a map, or that the row was offered as a sequence
+struct Map3 {
+    as_seq: bool,
+    n: u8,
+    k: [Option<Key>; 3],
+    v: [Option<Got>; 3],
+}
+struct Map3V;
+impl<'de> Visitor<'de> for Map3V {
+    type Value = Map3;
+    fn expecting(&self, _f: &mut fmt::Formatter<'_>) -> fmt::Result {
+        Ok(())
+    }
+    fn visit_map<A: MapAccess<'de>>(self, mut a: A) -> Result<Map3, A::Error> {
+        let mut r = Map3 { as_seq: false, n: 0, k: [None; 3], v: [None; 3] };
+        while r.n < 3 {
+            match a.next_key::<Key>()? {
+                Some(k) => {
+                    r.k[r.n as usize] = Some(k);
+                    r.v[r.n as usize] = Some(a.next_value::<Got>()?);
+                }
+                None => break,
+            }
+            r.n += 1;
+        }
+        Ok(r)
+    }
+    fn visit_seq<A: SeqAccess<'de>>(self, _a: A) -> Result<Map3, A::Error> {
+        Ok(Map3 { as_seq: true, n: 0, k: [None; 3], v: [None; 3] })
     }
 }
+fn hdr_ab() -> [String; 2] {
+    [String::from("a"), String::from("b")]
+}
 
-
-
-fn to_string_stub<T: fmt::Display + ?Sized>(_v: &T) -> String { String::new() }
+/// coordinator case: row [Empty, Int(x)] under headers ["a","b"] yields exactly the entry "b" -> x
+/// (an empty cell is absent; it does not end the record)
 #[kani::proof]
-#[kani::unwind(8)]
+#[kani::unwind(5)]
 #[kani::stub(alloc::fmt::format, format_stub)]
-fn probe_y1() {
+fn row_map_skips_leading_empty() {
+    let x: i64 = kani::any();
+    let cells = [Data::Empty, Data::Int(x)];
+    let h = hdr_ab();
+    let idx = [0usize, 1];
+    let de = RowDeserializer::new(&idx, Some(&h), &cells, kani::any());
+    match de.deserialize_map(Map3V) {
+        Ok(m) => {
+            assert!(!m.as_seq && m.n == 1);
+            assert!(m.k[0] == Some(Key(b'b', 1)));
+            assert!(m.v[0] == Some(Got::I64(x)));
+        }
+        Err(_) => assert!(false),
+    }
+}
+/// every combination of present/empty cells: the entries are exactly the non-empty cells, in column order,
+/// each bound to the header of its own column
+#[kani::proof]
+#[kani::unwind(5)]
+#[kani::stub(alloc::fmt::format, format_stub)]
+fn row_map_binds_by_header() {
+    let tag: [u8; 2] = kani::any();
+    kani::assume(tag[0] < 2 && tag[1] < 2);
     let v: [i64; 2] = kani::any();
-    let range = Range { start: (3, 2), end: (3, 3), inner: vec![Data::Int(v[0]), Data::Int(v[1])] };
-    let b = no_headers();
-    let Ok(mut it) = b.from_range::<Data, Row3<i64>>(&range) else {
-        assert!(false);
-        return;
-    };
-    match it.next() {
-        Some(Ok(r)) => assert!(r.n == 2 && r.e[0] == Some(v[0]) && r.e[1] == Some(v[1])),
+    let k = CellErrorType::NA;
+    let cells = [mk_cell(tag[0], v[0], &k), mk_cell(tag[1], v[1], &k)];
+    let h = hdr_ab();
+    let idx = [0usize, 1];
+    kani::cover!(tag[0] == 0 && tag[1] == 1);
+    kani::cover!(tag[0] == 1 && tag[1] == 1);
+    let de = RowDeserializer::new(&idx, Some(&h), &cells, kani::any());
+    match de.deserialize_struct("R", &["a", "b"], Map3V) {
+        Ok(m) => {
+            assert!(!m.as_seq);
+            let present = (tag[0] == 0) as u8 + (tag[1] == 0) as u8;
+            assert!(m.n == present);
+            if tag[0] == 0 {
+                assert!(m.k[0] == Some(Key(b'a', 1)) && m.v[0] == Some(Got::I64(v[0])));
+            }
+            if tag[1] == 0 {
+                let at = if tag[0] == 0 { 1 } else { 0 };
+                assert!(m.k[at] == Some(Key(b'b', 1)) && m.v[at] == Some(Got::I64(v[1])));
+            }
+        }
+        Err(_) => assert!(false),
+    }
+}
+/// with selected columns [1, 0] the entries come in the selected order, still bound to their own header
+#[kani::proof]
+#[kani::unwind(5)]
+#[kani::stub(alloc::fmt::format, format_stub)]
+fn row_map_selected_order() {
+    let v: [i64; 2] = kani::any();
+    let cells = [Data::Int(v[0]), Data::Int(v[1])];
+    let h = hdr_ab();
+    let idx = [1usize, 0];
+    let de = RowDeserializer::new(&idx, Some(&h), &cells, kani::any());
+    match de.deserialize_map(Map3V) {
+        Ok(m) => {
+            assert!(m.n == 2);
+            assert!(m.k[0] == Some(Key(b'b', 1)) && m.v[0] == Some(Got::I64(v[1])));
+            assert!(m.k[1] == Some(Key(b'a', 1)) && m.v[1] == Some(Got::I64(v[0])));
+        }
+        Err(_) => assert!(false),
+    }
+}
+/// an error cell as a map value fails the record with its kind
+#[kani::proof]
+#[kani::unwind(5)]
+#[kani::stub(alloc::fmt::format, format_stub)]
+fn row_map_error_value() {
+    let x: i64 = kani::any();
+    let k = any_kind();
+    let cells = [Data::Int(x), Data::Error(k.clone())];
+    let h = hdr_ab();
+    let idx = [0usize, 1];
+    let de = RowDeserializer::new(&idx, Some(&h), &cells, kani::any());
+    match de.deserialize_map(Map3V) {
+        Err(DeError::CellError { err, .. }) => assert!(kind_no(&err) == kind_no(&k)),
         _ => assert!(false),
     }
 }
+/// asking for a value when no key is pending is UnexpectedEndOfRow at the row position, not a panic
 #[kani::proof]
-#[kani::unwind(8)]
+#[kani::unwind(5)]
 #[kani::stub(alloc::fmt::format, format_stub)]
-fn probe_y2() {
-    let v: [i64; 2] = kani::any();
-    let range = Range { start: (3, 2), end: (3, 3), inner: vec![Data::Int(v[0]), Data::Int(v[1])] };
-    let mut rows = range.rows();
-    let idx: Vec<usize> = (0..range.width()).collect();
-    let Some(row) = rows.next() else { assert!(false); return; };
+fn row_map_value_without_key() {
+    let cells = [Data::Int(kani::any())];
+    let h = hdr_ab();
+    let idx = [0usize];
     let pos: (u32, u32) = kani::any();
-    let de = RowDeserializer::new(&idx, None, row, pos);
-    match Row3::<i64>::deserialize(de) {
-        Ok(r) => assert!(r.n == 2 && r.e[0] == Some(v[0]) && r.e[1] == Some(v[1])),
+    let mut de = RowDeserializer::new(&idx, Some(&h), &cells, pos);
+    match de.next_value::<Got>() {
+        Err(DeError::UnexpectedEndOfRow { pos: p }) => assert!(p == pos),
         _ => assert!(false),
+    }
+}
+/// struct / map targets get a map exactly when there are headers; any other target gets the sequence
+#[kani::proof]
+#[kani::unwind(5)]
+#[kani::stub(alloc::fmt::format, format_stub)]
+fn row_dispatch_map_iff_headers() {
+    let cells = [Data::Int(kani::any()), Data::Int(kani::any())];
+    let h = hdr_ab();
+    let idx = [0usize, 1];
+    let pos: (u32, u32) = kani::any();
+    let with = |hh: bool| RowDeserializer::new(&idx, if hh { Some(&h[..]) } else { None }, &cells, pos);
+    assert!(matches!(with(true).deserialize_map(Map3V), Ok(m) if !m.as_seq));
+    assert!(matches!(with(true).deserialize_struct("R", &["a", "b"], Map3V), Ok(m) if !m.as_seq));
+    assert!(matches!(with(false).deserialize_map(Map3V), Ok(m) if m.as_seq));
+    assert!(matches!(with(false).deserialize_struct("R", &["a", "b"], Map3V), Ok(m) if m.as_seq));
+    assert!(matches!(with(true).deserialize_any(Map3V), Ok(m) if m.as_seq));
+    assert!(matches!(with(true).deserialize_tuple(2, Map3V), Ok(m) if m.as_seq));
+    assert!(matches!(with(true).deserialize_seq(Map3V), Ok(m) if m.as_seq));
+}
+
+// ---------------------------------------------------------------------------------------------
+// Part 2b -- RangeDeserializer::{new,next,size_hint}, Headers::None, 3 x 2 cells
+// ---------------------------------------------------------------------------------------------
+// Shape: the row origin is symbolic (any u32 such that the range fits); the column origin is the concrete
+// constant C0, because `Range::width()` = end.1 - start.1 + 1 has to be a constant for CBMC (it is the chunk
+// size of `rows()` and the length of `column_indexes`).  The Range is built from its fields (row-major `inner`,
+// which is the representation invariant C05 is about); `range_api_built_rows_in_order` goes through
+// `Range::new` + `set_value` instead.
+
+const C0: u32 = 2;
+const H: usize = 3;
+const W: usize = 2;
+
+struct Sheet {
+    start: (u32, u32),
+    range: Range<Data>,
+}
+fn sheet(tag: &[[u8; W]; H], v: &[[i64; W]; H], k: &CellErrorType) -> Sheet {
+    let r0: u32 = kani::any();
+    kani::assume(r0 <= u32::MAX - H as u32);
+    let start = (r0, C0);
+    let inner = vec![
+        mk_cell(tag[0][0], v[0][0], k),
+        mk_cell(tag[0][1], v[0][1], k),
+        mk_cell(tag[1][0], v[1][0], k),
+        mk_cell(tag[1][1], v[1][1], k),
+        mk_cell(tag[2][0], v[2][0], k),
+        mk_cell(tag[2][1], v[2][1], k),
+    ];
+    Sheet { start, range: Range { start, end: (r0 + H as u32 - 1, C0 + W as u32 - 1), inner } }
+}
+fn no_headers() -> RangeDeserializerBuilder<'static, &'static str> {
+    let mut b = RangeDeserializerBuilder::new();
+    b.has_headers(false);
+    b
+}
+type It<'a> = RangeDeserializer<'a, Data, Row3<Got>>;
+fn iter_of<'a>(range: &'a Range<Data>) -> It<'a> {
+    match no_headers().from_range::<Data, Row3<Got>>(range) {
+        Ok(it) => it,
+        Err(_) => {
+            assert!(false);
+            unreachable!()
+        }
+    }
+}
+const INTS: [[u8; W]; H] = [[0; W]; H];
+
+/// exactly one item per row: H times Some, then None
+#[kani::proof]
+#[kani::unwind(8)]
+#[kani::stub(alloc::fmt::format, format_stub)]
+#[kani::stub(<f64 as alloc::string::ToString>::to_string, to_string_stub)]
+fn range_one_item_per_row() {
+    let v: [[i64; W]; H] = kani::any();
+    let s = sheet(&INTS, &v, &CellErrorType::NA);
+    let mut it = iter_of(&s.range);
+    let mut n = 0;
+    while n < H {
+        assert!(it.next().is_some());
+        n += 1;
+    }
+    assert!(it.next().is_none());
+}
+
+/// item n is row n: the record is the row's cells by position
+#[kani::proof]
+#[kani::unwind(8)]
+#[kani::stub(alloc::fmt::format, format_stub)]
+#[kani::stub(<f64 as alloc::string::ToString>::to_string, to_string_stub)]
+fn range_rows_in_order() {
+    let v: [[i64; W]; H] = kani::any();
+    let s = sheet(&INTS, &v, &CellErrorType::NA);
+    let mut it = iter_of(&s.range);
+    let mut n = 0;
+    while n < H {
+        match it.next() {
+            Some(Ok(r)) => {
+                assert!(r.n as usize == W);
+                assert!(r.e[0] == Some(Got::I64(v[n][0])) && r.e[1] == Some(Got::I64(v[n][1])));
+            }
+            _ => assert!(false),
+        }
+        n += 1;
+    }
+}
+
+/// empty cells stay in their position (seen as unit / None), they do not shift or end the record
+#[kani::proof]
+#[kani::unwind(8)]
+#[kani::stub(alloc::fmt::format, format_stub)]
+#[kani::stub(<f64 as alloc::string::ToString>::to_string, to_string_stub)]
+fn range_empty_cells_by_position() {
+    let v: [[i64; W]; H] = kani::any();
+    let tag: [[u8; W]; H] = kani::any();
+    let mut n = 0;
+    while n < H {
+        kani::assume(tag[n][0] < 2 && tag[n][1] < 2);
+        n += 1;
+    }
+    kani::cover!(tag[0][0] == 1 && tag[1][1] == 1 && tag[2][0] == 0);
+    let s = sheet(&tag, &v, &CellErrorType::NA);
+    let mut it = iter_of(&s.range);
+    let mut n = 0;
+    while n < H {
+        match it.next() {
+            Some(Ok(r)) => {
+                assert!(r.n as usize == W);
+                assert!(r.e[0] == Some(seen(tag[n][0], v[n][0])) && r.e[1] == Some(seen(tag[n][1], v[n][1])));
+            }
+            _ => assert!(false),
+        }
+        n += 1;
+    }
+}
+
+/// size_hint after `k` calls of next(), together with the number of items that are really still to come
+fn hint_after(k: usize) -> ((usize, Option<usize>), usize) {
+    let v: [[i64; W]; H] = kani::any();
+    let s = sheet(&INTS, &v, &CellErrorType::NA);
+    let mut it = iter_of(&s.range);
+    let mut n = 0;
+    while n < k {
+        let _ = it.next();
+        n += 1;
+    }
+    let hint = it.size_hint();
+    // the items that are really still to come: exactly H - k
+    let mut m = 0;
+    while m < H - k {
+        assert!(it.next().is_some());
+        m += 1;
+    }
+    assert!(it.next().is_none());
+    (hint, H - k)
+}
+/// lower bound, fresh iterator
+#[kani::proof]
+#[kani::unwind(8)]
+#[kani::stub(alloc::fmt::format, format_stub)]
+#[kani::stub(<f64 as alloc::string::ToString>::to_string, to_string_stub)]
+fn range_size_hint_lower_k0() {
+    let ((lo, _), remaining) = hint_after(0);
+    assert!(remaining == H);
+    assert!(lo <= remaining);
+}
+#[kani::proof]
+#[kani::unwind(8)]
+#[kani::stub(alloc::fmt::format, format_stub)]
+#[kani::stub(<f64 as alloc::string::ToString>::to_string, to_string_stub)]
+fn range_size_hint_lower_k1() {
+    let ((lo, _), remaining) = hint_after(1);
+    assert!(remaining == H - 1);
+    assert!(lo <= remaining);
+}
+#[kani::proof]
+#[kani::unwind(8)]
+#[kani::stub(alloc::fmt::format, format_stub)]
+#[kani::stub(<f64 as alloc::string::ToString>::to_string, to_string_stub)]
+fn range_size_hint_lower_k2() {
+    let ((lo, _), remaining) = hint_after(2);
+    assert!(remaining == H - 2);
+    assert!(lo <= remaining);
+}
+#[kani::proof]
+#[kani::unwind(8)]
+#[kani::stub(alloc::fmt::format, format_stub)]
+#[kani::stub(<f64 as alloc::string::ToString>::to_string, to_string_stub)]
+fn range_size_hint_lower_k3() {
+    let ((lo, _), remaining) = hint_after(3);
+    assert!(remaining == 0);
+    assert!(lo <= remaining);
+}
+fn upper_ok(hi: Option<usize>, remaining: usize) -> bool {
+    match hi {
+        None => true,
+        Some(u) => remaining <= u,
     }
 }
 #[kani::proof]
 #[kani::unwind(8)]
 #[kani::stub(alloc::fmt::format, format_stub)]
-fn probe_y3() {
-    let v: [i64; 4] = kani::any();
-    let range = Range { start: (3, 2), end: (4, 3), inner: vec![Data::Int(v[0]), Data::Int(v[1]), Data::Int(v[2]), Data::Int(v[3])] };
-    let b = no_headers();
-    let Ok(mut it) = b.from_range::<Data, Row3<i64>>(&range) else {
-        assert!(false);
-        return;
+#[kani::stub(<f64 as alloc::string::ToString>::to_string, to_string_stub)]
+fn range_size_hint_upper_k0() {
+    let ((_, hi), remaining) = hint_after(0);
+    assert!(upper_ok(hi, remaining));
+}
+#[kani::proof]
+#[kani::unwind(8)]
+#[kani::stub(alloc::fmt::format, format_stub)]
+#[kani::stub(<f64 as alloc::string::ToString>::to_string, to_string_stub)]
+fn range_size_hint_upper_k1() {
+    let ((_, hi), remaining) = hint_after(1);
+    assert!(upper_ok(hi, remaining));
+}
+#[kani::proof]
+#[kani::unwind(8)]
+#[kani::stub(alloc::fmt::format, format_stub)]
+#[kani::stub(<f64 as alloc::string::ToString>::to_string, to_string_stub)]
+fn range_size_hint_upper_k2() {
+    let ((_, hi), remaining) = hint_after(2);
+    assert!(upper_ok(hi, remaining));
+}
+#[kani::proof]
+#[kani::unwind(8)]
+#[kani::stub(alloc::fmt::format, format_stub)]
+#[kani::stub(<f64 as alloc::string::ToString>::to_string, to_string_stub)]
+fn range_size_hint_upper_k3() {
+    let ((_, hi), remaining) = hint_after(3);
+    assert!(upper_ok(hi, remaining));
+}
+
+/// an empty range: nothing to come, size_hint (0, Some(0)), no panic
+#[kani::proof]
+#[kani::unwind(8)]
+#[kani::stub(alloc::fmt::format, format_stub)]
+#[kani::stub(<f64 as alloc::string::ToString>::to_string, to_string_stub)]
+fn range_empty_range() {
+    let range: Range<Data> = Range::empty();
+    let mut it = iter_of(&range);
+    let (lo, hi) = it.size_hint();
+    assert!(lo == 0 && upper_ok(hi, 0));
+    assert!(it.next().is_none());
+}
+
+/// sheet with one error cell at symbolic (ei, ej); returns the H items
+struct ErrCase {
+    start: (u32, u32),
+    ei: usize,
+    ej: usize,
+    k: u8,
+    v: [[i64; W]; H],
+    items: [Option<Result<Row3<Got>, DeError>>; H],
+}
+fn error_case() -> ErrCase {
+    let v: [[i64; W]; H] = kani::any();
+    let ei: usize = kani::any();
+    let ej: usize = kani::any();
+    kani::assume(ei < H && ej < W);
+    let k = any_kind();
+    let mut tag = INTS;
+    tag[ei][ej] = 2;
+    let s = sheet(&tag, &v, &k);
+    let mut it = iter_of(&s.range);
+    let items = [it.next(), it.next(), it.next()];
+    ErrCase { start: s.start, ei, ej, k: kind_no(&k), v, items }
+}
+/// the row of the error cell fails with CellError carrying that cell's error kind
+#[kani::proof]
+#[kani::unwind(8)]
+#[kani::stub(alloc::fmt::format, format_stub)]
+#[kani::stub(<f64 as alloc::string::ToString>::to_string, to_string_stub)]
+fn range_error_kind() {
+    let c = error_case();
+    kani::cover!(c.ei == 2 && c.ej == 1);
+    match &c.items[c.ei] {
+        Some(Err(DeError::CellError { err, .. })) => assert!(kind_no(err) == c.k),
+        _ => assert!(false),
+    }
+}
+/// ... and the absolute row of that cell
+#[kani::proof]
+#[kani::unwind(8)]
+#[kani::stub(alloc::fmt::format, format_stub)]
+#[kani::stub(<f64 as alloc::string::ToString>::to_string, to_string_stub)]
+fn range_error_row() {
+    let c = error_case();
+    kani::cover!(c.ei == 2 && c.ej == 1);
+    match &c.items[c.ei] {
+        Some(Err(DeError::CellError { pos, .. })) => assert!(pos.0 == c.start.0 + c.ei as u32),
+        _ => assert!(false),
+    }
+}
+/// ... and the absolute column of that cell
+#[kani::proof]
+#[kani::unwind(8)]
+#[kani::stub(alloc::fmt::format, format_stub)]
+#[kani::stub(<f64 as alloc::string::ToString>::to_string, to_string_stub)]
+fn range_error_col() {
+    let c = error_case();
+    kani::cover!(c.ei == 2 && c.ej == 1);
+    match &c.items[c.ei] {
+        Some(Err(DeError::CellError { pos, .. })) => assert!(pos.1 == c.start.1 + c.ej as u32),
+        _ => assert!(false),
+    }
+}
+/// the other rows are not affected: they are Ok and carry their own cells
+#[kani::proof]
+#[kani::unwind(8)]
+#[kani::stub(alloc::fmt::format, format_stub)]
+#[kani::stub(<f64 as alloc::string::ToString>::to_string, to_string_stub)]
+fn range_error_isolated() {
+    let c = error_case();
+    kani::cover!(c.ei == 1);
+    let mut n = 0;
+    while n < H {
+        if n != c.ei {
+            match &c.items[n] {
+                Some(Ok(r)) => {
+                    assert!(r.n as usize == W);
+                    assert!(r.e[0] == Some(Got::I64(c.v[n][0])) && r.e[1] == Some(Got::I64(c.v[n][1])));
+                }
+                _ => assert!(false),
+            }
+        }
+        n += 1;
+    }
+}
+
+// ---------------------------------------------------------------------------------------------
+// Part 2c -- header modes (Headers::All / Headers::Custom), concrete 1-3 byte header strings
+// ---------------------------------------------------------------------------------------------
+// 2 rows x 2 cols: header row [h0, h1] (concrete strings), data row [x, y]; row origin symbolic.
+
+fn hsheet(h0: &str, h1: &str, x: Data, y: Data) -> Sheet {
+    let r0: u32 = kani::any();
+    kani::assume(r0 <= u32::MAX - 2);
+    let start = (r0, C0);
+    let inner = vec![Data::String(String::from(h0)), Data::String(String::from(h1)), x, y];
+    Sheet { start, range: Range { start, end: (r0 + 1, C0 + 1), inner } }
+}
+/// a record read through deserialize_struct: a map when there are headers
+impl<'de> Deserialize<'de> for Map3 {
+    fn deserialize<D: Deserializer<'de>>(d: D) -> Result<Self, D::Error> {
+        d.deserialize_struct("R", &["a", "b"], Map3V)
+    }
+}
+macro_rules! hdr_harness {
+    ($(#[$m:meta])* fn $name:ident() $body:block) => {
+        $(#[$m])*
+        #[kani::proof]
+        #[kani::unwind(8)]
+        #[kani::stub(alloc::fmt::format, format_stub)]
+        #[kani::stub(<f64 as alloc::string::ToString>::to_string, to_string_stub)]
+        fn $name() $body
     };
-    match it.next() {
-        Some(Ok(r)) => assert!(r.n == 2 && r.e[0] == Some(v[0]) && r.e[1] == Some(v[1])),
+}
+
+hdr_harness! {
+/// selecting ["b","a"] on header cells " a", "b " (matched after trimming) selects columns [1, 0]
+fn headers_custom_column_indexes() {
+    let s = hsheet(" a", "b ", Data::Int(kani::any()), Data::Int(kani::any()));
+    let req = ["b", "a"];
+    match RangeDeserializerBuilder::with_headers(&req).from_range::<Data, Row3<Got>>(&s.range) {
+        Ok(it) => assert!(it.column_indexes.len() == 2 && it.column_indexes[0] == 1 && it.column_indexes[1] == 0),
+        Err(_) => assert!(false),
+    }
+}
+}
+hdr_harness! {
+/// ... and the record carries the corresponding columns in the requested order
+fn headers_custom_record_in_requested_order() {
+    let (x, y): (i64, i64) = kani::any();
+    let s = hsheet(" a", "b ", Data::Int(x), Data::Int(y));
+    let req = ["b", "a"];
+    match RangeDeserializerBuilder::with_headers(&req).from_range::<Data, Row3<Got>>(&s.range) {
+        Ok(mut it) => match it.next() {
+            Some(Ok(r)) => assert!(r.n == 2 && r.e[0] == Some(Got::I64(y)) && r.e[1] == Some(Got::I64(x))),
+            _ => assert!(false),
+        },
+        Err(_) => assert!(false),
+    }
+}
+}
+hdr_harness! {
+/// the requested names are trimmed too, and a subset may be selected
+fn headers_custom_request_trimmed_subset() {
+    let (x, y): (i64, i64) = kani::any();
+    let s = hsheet("a", "b", Data::Int(x), Data::Int(y));
+    let req = [" b "];
+    match RangeDeserializerBuilder::with_headers(&req).from_range::<Data, Row3<Got>>(&s.range) {
+        Ok(mut it) => match it.next() {
+            Some(Ok(r)) => assert!(r.n == 1 && r.e[0] == Some(Got::I64(y))),
+            _ => assert!(false),
+        },
+        Err(_) => assert!(false),
+    }
+}
+}
+hdr_harness! {
+/// a requested name that is not a header is HeaderNotFound(that name)
+fn headers_custom_not_found() {
+    let s = hsheet(" a", "b ", Data::Int(kani::any()), Data::Int(kani::any()));
+    let req = ["b", "c"];
+    match RangeDeserializerBuilder::with_headers(&req).from_range::<Data, Row3<Got>>(&s.range) {
+        Err(DeError::HeaderNotFound(h)) => assert!(h.as_bytes() == b"c"),
         _ => assert!(false),
     }
-    match it.next() {
-        Some(Ok(r)) => assert!(r.n == 2 && r.e[0] == Some(v[2]) && r.e[1] == Some(v[3])),
+}
+}
+hdr_harness! {
+/// the header row is not an item: one data row gives exactly one item (Headers::Custom)
+fn headers_custom_one_item_per_data_row() {
+    let s = hsheet("a", "b", Data::Int(kani::any()), Data::Int(kani::any()));
+    let req = ["a", "b"];
+    match RangeDeserializerBuilder::with_headers(&req).from_range::<Data, Row3<Got>>(&s.range) {
+        Ok(mut it) => {
+            assert!(it.next().is_some());
+            assert!(it.next().is_none());
+        }
+        Err(_) => assert!(false),
+    }
+}
+}
+hdr_harness! {
+/// Headers::All: the header row is not an item, the data row is the record, cells by position
+fn headers_all_one_item_per_data_row() {
+    let (x, y): (i64, i64) = kani::any();
+    let s = hsheet("a", "b", Data::Int(x), Data::Int(y));
+    match RangeDeserializerBuilder::new().from_range::<Data, Row3<Got>>(&s.range) {
+        Ok(mut it) => {
+            match it.next() {
+                Some(Ok(r)) => assert!(r.n == 2 && r.e[0] == Some(Got::I64(x)) && r.e[1] == Some(Got::I64(y))),
+                _ => assert!(false),
+            }
+            assert!(it.next().is_none());
+        }
+        Err(_) => assert!(false),
+    }
+}
+}
+/// Headers::All, struct-like target: fields are bound by header name, whatever the column order
+fn bind_by_name(swap: bool) {
+    let (x, y): (i64, i64) = kani::any();
+    let s = if swap { hsheet("b", "a", Data::Int(x), Data::Int(y)) } else { hsheet("a", "b", Data::Int(x), Data::Int(y)) };
+    match RangeDeserializerBuilder::new().from_range::<Data, Map3>(&s.range) {
+        Ok(mut it) => match it.next() {
+            Some(Ok(m)) => {
+                assert!(!m.as_seq && m.n == 2);
+                // the value bound to name "a" / "b"
+                let a = if m.k[0] == Some(Key(b'a', 1)) { m.v[0] } else { m.v[1] };
+                let b = if m.k[0] == Some(Key(b'b', 1)) { m.v[0] } else { m.v[1] };
+                assert!(m.k[0] != m.k[1]);
+                assert!(a == Some(Got::I64(if swap { y } else { x })));
+                assert!(b == Some(Got::I64(if swap { x } else { y })));
+            }
+            _ => assert!(false),
+        },
+        Err(_) => assert!(false),
+    }
+}
+hdr_harness! {
+fn headers_all_binds_by_name() {
+    bind_by_name(false);
+    bind_by_name(true);
+}
+}
+hdr_harness! {
+/// Headers::All, struct-like target: an empty cell is absent from the record
+fn headers_all_empty_cell_absent() {
+    let y: i64 = kani::any();
+    let s = hsheet("a", "b", Data::Empty, Data::Int(y));
+    match RangeDeserializerBuilder::new().from_range::<Data, Map3>(&s.range) {
+        Ok(mut it) => match it.next() {
+            Some(Ok(m)) => assert!(!m.as_seq && m.n == 1 && m.k[0] == Some(Key(b'b', 1)) && m.v[0] == Some(Got::I64(y))),
+            _ => assert!(false),
+        },
+        Err(_) => assert!(false),
+    }
+}
+}
+/// Headers::All, error cell in the data row (absolute row start.0 + 1, column start.1 + j)
+fn hdr_error_case() -> ((u32, u32), usize, Option<Result<Row3<Got>, DeError>>) {
+    let j: usize = kani::any();
+    kani::assume(j < 2);
+    let k = any_kind();
+    let s = hsheet("a", "b", mk_cell(if j == 0 { 2 } else { 0 }, kani::any(), &k), mk_cell(if j == 1 { 2 } else { 0 }, kani::any(), &k));
+    match RangeDeserializerBuilder::new().from_range::<Data, Row3<Got>>(&s.range) {
+        Ok(mut it) => (s.start, j, it.next()),
+        Err(_) => {
+            assert!(false);
+            unreachable!()
+        }
+    }
+}
+hdr_harness! {
+fn headers_all_error_row() {
+    let (start, _j, item) = hdr_error_case();
+    match item {
+        Some(Err(DeError::CellError { pos, .. })) => assert!(pos.0 == start.0 + 1),
         _ => assert!(false),
     }
+}
+}
+hdr_harness! {
+fn headers_all_error_col() {
+    let (start, j, item) = hdr_error_case();
+    kani::cover!(j == 1);
+    match item {
+        Some(Err(DeError::CellError { pos, .. })) => assert!(pos.1 == start.1 + j as u32),
+        _ => assert!(false),
+    }
+}
+}
+/// size_hint with a header row: (hint after k next, items really to come)
+fn hdr_hint_after(k: usize) -> ((usize, Option<usize>), usize) {
+    let s = hsheet("a", "b", Data::Int(kani::any()), Data::Int(kani::any()));
+    match RangeDeserializerBuilder::new().from_range::<Data, Row3<Got>>(&s.range) {
+        Ok(mut it) => {
+            if k == 1 {
+                assert!(it.next().is_some());
+            }
+            let hint = it.size_hint();
+            if k == 0 {
+                assert!(it.next().is_some());
+            }
+            assert!(it.next().is_none());
+            (hint, 1 - k)
+        }
+        Err(_) => {
+            assert!(false);
+            unreachable!()
+        }
+    }
+}
+hdr_harness! {
+fn headers_all_size_hint_k0() {
+    let ((lo, hi), remaining) = hdr_hint_after(0);
+    assert!(lo <= remaining && upper_ok(hi, remaining));
+}
+}
+hdr_harness! {
+fn headers_all_size_hint_lower_k1() {
+    let ((lo, _), remaining) = hdr_hint_after(1);
+    assert!(lo <= remaining);
+}
+}
+hdr_harness! {
+/// a sheet that has only the header row: nothing to come; size_hint must say (0, _) and must not panic
+fn headers_only_size_hint() {
+    let r0: u32 = kani::any();
+    let start = (r0, C0);
+    let range = Range { start, end: (r0, C0), inner: vec![Data::String(String::from("a"))] };
+    match RangeDeserializerBuilder::new().from_range::<Data, Row3<Got>>(&range) {
+        Ok(mut it) => {
+            let (lo, hi) = it.size_hint();
+            assert!(lo == 0 && upper_ok(hi, 0));
+            assert!(it.next().is_none());
+        }
+        Err(_) => assert!(false),
+    }
+}
 }
